@@ -62,11 +62,18 @@ pub fn cases_for(ctx: &Ctx) -> (Vec<Case>, u32) {
 /// already recorded failures of sub-label-sets in the same group is attributed to them.
 pub struct Attribution {
     roots: Vec<(String, BTreeSet<String>, BTreeSet<String>, String)>, // group, labels, sigs, key
+    /// relaxed: a failure is attributed to any failing case of the same family whose labels are a
+    /// subset (signatures are not compared: the same lost construct shows as a syntax error in one
+    /// context and as a shorter list in another)
+    relaxed: bool,
 }
 
 impl Attribution {
     pub fn new() -> Attribution {
-        Attribution { roots: vec![] }
+        Attribution { roots: vec![], relaxed: false }
+    }
+    pub fn relaxed() -> Attribution {
+        Attribution { roots: vec![], relaxed: true }
     }
     /// Returns the key to report for this failing case (an existing root key or a new one).
     pub fn key_for(&mut self, group: &str, labels: &[String], sigs: &BTreeSet<String>) -> String {
@@ -97,7 +104,7 @@ impl Attribution {
         let mut covered: BTreeSet<String> = BTreeSet::new();
         let mut first: Option<String> = None;
         for (f, rl, rs, key) in &self.roots {
-            if *f == family && rl.is_subset(&lset) && !rs.is_disjoint(&nsigs) && (rl.len() < lset.len() || key.split('/').next() != Some(group)) {
+            if *f == family && rl.is_subset(&lset) && (self.relaxed || !rs.is_disjoint(&nsigs)) && (rl.len() < lset.len() || key.split('/').next() != Some(group)) {
                 covered.extend(rs.iter().cloned());
                 if first.is_none() {
                     first = Some(key.clone());
@@ -105,7 +112,7 @@ impl Attribution {
             }
         }
         if let Some(k) = first {
-            if nsigs.is_subset(&covered) {
+            if self.relaxed || nsigs.is_subset(&covered) {
                 return k;
             }
         }
